@@ -38,8 +38,8 @@ func H_C11_strings() {
 	vrtSpec(2, 1, 2, "x", smASCII, nfInt, 0)
 	vrtNumRange(0, 4)
 	doc := map[string]any{
-		"a": vrtStr("a", n, smUTF8),
-		"b": vrtStr("b", 1, smUTF8),
+		"a": vrtStr("a", n, smUTF8|(0x4f<<2)), // 1-4 byte classes incl. U+FFFD's
+		"b": vrtStr("b", 1, smUTF8|(0x4f<<2)),
 		"c": vrtJNum("c", nfInt),
 		"d": vrtJNum("d", nfInt),
 	}
